@@ -182,6 +182,56 @@ class WorkerPool(object):
                 w['p'].kill()
 
 
+def second_solver_check(results, nproc):
+    """re-check dumped (discharged) obligations with the independent solver binaries /usr/bin/z3 (4.8.12) and cvc5 (1.0.3):
+    they must not answer `sat`; a timeout / unknown / unsupported construct is 'no information'"""
+    import shutil
+    os.makedirs(WORK, exist_ok=True)
+    files = []
+    for name, r in results.items():
+        for i, txt in enumerate(r.get('dumps') or []):
+            f = os.path.join(WORK, 'ob-%d-%s-%d.smt2' % (os.getpid(), abs(hash(name)) % 10 ** 8, i))
+            open(f, 'w').write('(set-logic ALL)\n' + txt)
+            files.append((name, f))
+    out = {'obligations': len(files), 'z3_4.8.12': {'unsat': 0, 'no_answer': 0, 'sat': 0}, 'cvc5_1.0.3': {'unsat': 0, 'no_answer': 0, 'sat': 0}, 'disagree': []}
+    solvers = []
+    if os.path.exists('/usr/bin/z3'):
+        solvers.append(('z3_4.8.12', ['/usr/bin/z3', '-T:10']))
+    if shutil.which('cvc5'):
+        solvers.append(('cvc5_1.0.3', [shutil.which('cvc5'), '--tlimit=10000']))
+    procs = []
+
+    def drain():
+        while procs:
+            key, name, p = procs.pop(0)
+            try:
+                o = p.communicate(timeout=30)[0].decode('utf8', 'replace')
+            except Exception:
+                p.kill()
+                o = ''
+            lines = [l.strip() for l in o.splitlines() if l.strip()]
+            ans = next((l for l in lines if l in ('sat', 'unsat', 'unknown')), '')
+            if '(error' in o or ans not in ('sat', 'unsat'):
+                out[key]['no_answer'] += 1
+            elif ans == 'unsat':
+                out[key]['unsat'] += 1
+            else:
+                out[key]['sat'] += 1
+                out['disagree'].append(name)
+    for name, f in files:
+        for key, cmd in solvers:
+            procs.append((key, name, subprocess.Popen(cmd + [f], stdout=subprocess.PIPE, stderr=subprocess.STDOUT)))
+            if len(procs) >= max(2, nproc):
+                drain()
+    drain()
+    for _, f in files:
+        try:
+            os.remove(f)
+        except OSError:
+            pass
+    return out
+
+
 def load_findings(prop):
     p = os.path.join(HERE, 'known_findings.json')
     if not os.path.exists(p):
@@ -243,6 +293,10 @@ def main(argv):
     pool = WorkerPool(jobs_n)
     results = {}
     pending = [{'t': t, 'deadline': deadline, 'exclude': [], 'witness_cap': wcap, 'seed': seed} for t in ts]
+    # second-solver cross-check: a seed-rotated sample of templates hands back discharged obligations as SMT-LIB2
+    rng2 = random.Random(seed + 7)
+    for j in rng2.sample(pending, min(len(pending), {'quick': 24, 'thorough': 120}[tier])):
+        j['dump_k'] = 2
     tmpl = dict((t['name'], t) for t in ts)
     violations = []
     known_hit = {}
@@ -330,6 +384,11 @@ def main(argv):
             if results[name]['status'] == 'confirmed':
                 results[name]['status'] = 'inconclusive'
                 results[name]['reasons'] = ['model/real-stack disagreement on a path witness: %s %s' % (rr['status'], str(rr.get('mismatch') or rr.get('err'))[:300])]
+    second = second_solver_check(results, jobs_n)
+    for name in second['disagree']:
+        if results[name]['status'] == 'confirmed':
+            results[name]['status'] = 'inconclusive'
+            results[name]['reasons'] = ['a second solver does not agree that a discharged obligation is unsat']
     # ---- report
     agg = dict(paths=0, verified=0, vacuous=0, forks=0, decisions=0, q_sat=0, q_unsat=0, q_unknown=0, solver_s=0.0)
     functions = set()
@@ -386,6 +445,9 @@ def main(argv):
             'counterexamples_replayed_on_real_stack': real_cex_checked,
             'model_real_mismatches': len(mismatches),
             'spurious_model_counterexamples': spurious,
+            'second_solver': dict((k, v) for k, v in second.items() if k != 'disagree'),
+            'second_solver_disagreements': second['disagree'],
+            'fresh_solver_queries': sum(r.get('fresh_solver_queries', 0) for r in results.values()),
             'exhaustive': False,
             'explanation': getattr(mod, 'EXPLANATION', ''),
             'engine': 'symx replay-based path exploration, z3 %s; numpy replaced by symnp list-backed model; source imported from %s' % (z3_version(), REPO),
